@@ -220,16 +220,19 @@ func (p *Prog) Func(rel, recv, name string) *ssa.Function {
 	if t == nil {
 		return nil
 	}
+	var wrapper *ssa.Function
 	for _, ty := range []types.Type{types.NewPointer(t.Type()), t.Type()} {
 		sel := p.SSA.MethodSets.MethodSet(ty).Lookup(sp.Pkg, name)
 		if sel != nil {
 			if fn := p.SSA.MethodValue(sel); fn != nil {
-				// unwrap promoted wrappers to the declared method when the receiver matches
-				return fn
+				if fn.Synthetic == "" {
+					return fn // the declared method, not a pointer-receiver or promotion wrapper
+				}
+				wrapper = fn
 			}
 		}
 	}
-	return nil
+	return wrapper
 }
 
 // Named returns the named type rel.name.
